@@ -77,6 +77,12 @@ def main():
             rc, out = run(["cargo", "nextest", "run", "--workspace", "--no-fail-fast", "--test-threads", "8", "--offline",
                            "--cargo-quiet", "--status-level", "fail", "--final-status-level", "fail",
                            "--failure-output", "never", "--success-output", "never"], cwd=wt, env=tgt)
+            if rc != 0 and ("Broken pipe" in out or "due to signal" in out or "SIGTERM" in out or
+                            not re.search(r"\b4\d\d\d tests run", out)):
+                # the run was interrupted from outside (shared machine): retry once
+                rc, out = run(["cargo", "nextest", "run", "--workspace", "--no-fail-fast", "--test-threads", "8", "--offline",
+                               "--cargo-quiet", "--status-level", "fail", "--final-status-level", "fail",
+                               "--failure-output", "never", "--success-output", "never"], cwd=wt, env=tgt)
             mm = re.search(r"(\d+) tests run: (\d+) passed(?: \((\d+) \w+\))?,? ?(?:(\d+) failed)?", out)
             summ = [l for l in out.splitlines() if "tests run" in l or "Summary" in l]
             result["suite"] = summ[-1].strip() if summ else out[-300:]
